@@ -234,12 +234,17 @@ func spoil(t *rapid.T, c *CaseA, what string) {
 	}
 }
 
-func genCaseA(t *rapid.T, allowBad bool) CaseA {
+func genCaseA(t *rapid.T, allowBad bool) CaseA { return genCaseAScaled(t, allowBad, limBuild()) }
+
+func genCaseAScaled(t *rapid.T, allowBad bool, lim scaleLim) CaseA {
 	var c CaseA
 	c.Opts = genOpts(t)
 	c.SMB = rapid.IntRange(0, 3).Draw(t, "transport") == 0
 	c.HTTP = genHTTP(t)
 	c.Pipe = SMBL{PipeName: rapid.SampledFrom(pipePool).Draw(t, "pipe"), KillDate: rapid.SampledFrom(killDates).Draw(t, "pipe-killdate"), WorkingHours: genHours(t)}
+	if rapid.IntRange(0, 39).Draw(t, "scale?") == 0 {
+		applyScale(t, &c, lim) // scale_test.go; the spoiling below is the "one more ordinary step" after the bulk
+	}
 	if allowBad && rapid.IntRange(0, 9).Draw(t, "spoil?") < 3 {
 		n := 1
 		if rapid.IntRange(0, 4).Draw(t, "spoil-two") == 0 {
@@ -260,7 +265,7 @@ func genCaseA(t *rapid.T, allowBad bool) CaseA {
 	return c
 }
 
-func genA(t *rapid.T) CaseA { return genCaseA(t, true) }
+func genA(t *rapid.T) CaseA { return genCaseAScaled(t, true, limA()) }
 
 // ---------------------------------------------------------------------------- fixture
 
